@@ -386,7 +386,7 @@ def _keyerror_skips(ex, ev_lookup, ev_store):
 
 
 def config_ast(ctx):
-    repo = F.Repo(ctx.REPO)
+    repo = F.shared_repo(ctx.REPO)
     src = (ctx.REPO / 'replicat' / 'utils' / 'config.py').read_text()
     tree = ast.parse(src)
     ak = ctx.find_func(tree, 'Config', 'apply_known')
@@ -612,7 +612,7 @@ def main_ast(ctx):
     tcli = ast.parse(src_cli)
     ctx.fp('cli.make_main_parser', ctx.find_func(tcli, 'make_main_parser'))
     ctx.fp('cli.parser_for_backend', ctx.find_func(tcli, 'parser_for_backend'))
-    repo = F.Repo(ctx.REPO)
+    repo = F.shared_repo(ctx.REPO)
     fmain = repo.func('replicat.__main__', 'main')
     if fmain is None:
         return [], [], False
@@ -770,7 +770,7 @@ def section(ctx):
             group_ids[k] = len(group_ids)
         return f'some {group_ids[k]}'
 
-    brepo = F.Repo(ctx.REPO)
+    brepo = F.shared_repo(ctx.REPO)
 
     def clivar(a):
         cls = a['cls']
